@@ -218,3 +218,23 @@ func vfnTrunc(s string, n int) string {
 	}
 	return s
 }
+
+// vfnRaceExit: under -race the testing package fails a test in which the detector reported anything
+// (exit status 1), which the driver would read as a broken harness although the reports are collected
+// from the GORACE log files and classified there (anchored -> violation, others -> listed).  A run that
+// finished its own work without a harness error therefore leaves with status 0; cleanup runs first
+// because deferred t.TempDir removal does not happen on os.Exit.
+func vfnRaceExit(t interface{ Failed() bool }, cleanup ...func()) {
+	if !vfnRaceEnabled || t.Failed() {
+		return
+	}
+	for _, f := range cleanup {
+		f()
+	}
+	vfSinkMu.Lock()
+	if vfSinkF != nil {
+		_ = vfSinkF.Sync()
+	}
+	vfSinkMu.Unlock()
+	os.Exit(0)
+}
